@@ -52,6 +52,24 @@ pub enum Op {
     Kr,
 }
 
+impl Op {
+    /// injective byte code (fingerprints)
+    pub fn code(&self) -> [u8; 3] {
+        match *self {
+            Op::W(k) => [0, k, 0],
+            Op::R(n) => [1, n, 0],
+            Op::Rp(p, n) => [2, n, p],
+            Op::F => [3, 0, 0],
+            Op::S => [4, 0, 0],
+            Op::DW => [5, 0, 0],
+            Op::DR => [6, 0, 0],
+            Op::B(b) => [7, b, 0],
+            Op::Kw => [8, 0, 0],
+            Op::Kr => [9, 0, 0],
+        }
+    }
+}
+
 impl std::fmt::Debug for Op {
     fn fmt(&self, f: &mut std::fmt::Formatter<'_>) -> std::fmt::Result {
         f.write_str(&String::from(*self))
